@@ -800,6 +800,38 @@ func singleDefLocals(fn *ast.FuncDecl) map[string]string {
 type cmpEnv struct {
 	switchVar string            // `switch v := msg.(type)`: v is the message
 	fnLocals  map[string]string // single-definition locals of the enclosing function
+	files     []File            // the package: one-expression predicates (`func over(r sdk.Dec) bool { return r.GT(MAX()) }`) are unfolded
+}
+
+// predicateHelper: call is `f(args…)` of a same-package function whose body is the single statement `return <expr>`;
+// returns that expression and the parameter name → argument expression map.
+func predicateHelper(files []File, call *ast.CallExpr) (ast.Expr, map[string]ast.Expr) {
+	id, ok := call.Fun.(*ast.Ident)
+	if !ok || files == nil {
+		return nil, nil
+	}
+	fd := findFunc(files, id.Name, "")
+	if fd == nil || fd.Body == nil || len(fd.Body.List) != 1 || fd.Type.Params == nil {
+		return nil, nil
+	}
+	r, ok := fd.Body.List[0].(*ast.ReturnStmt)
+	if !ok || len(r.Results) != 1 {
+		return nil, nil
+	}
+	params := map[string]ast.Expr{}
+	i := 0
+	for _, f := range fd.Type.Params.List {
+		for _, n := range f.Names {
+			if i < len(call.Args) {
+				params[n.Name] = call.Args[i]
+			}
+			i++
+		}
+	}
+	if i != len(call.Args) {
+		return nil, nil
+	}
+	return r.Results[0], params
 }
 
 // aliasesOf: `x := e` definitions made directly in the clause or in the Init of one of its if statements.
@@ -885,6 +917,47 @@ func cmpIn(env cmpEnv, clause []ast.Stmt) cmpFacts {
 			}
 			return true
 		})
+		if !found {
+			// the comparison behind a one-expression predicate of the same package: `if over(rate)` with
+			// `func over(r sdk.Dec) bool { return r.GT(MAX_COMMISSION()) }` — parameters stand for the arguments
+			ast.Inspect(ifs.Cond, func(n ast.Node) bool {
+				call, ok := n.(*ast.CallExpr)
+				if !ok || found {
+					return true
+				}
+				body, params := predicateHelper(env.files, call)
+				if body == nil {
+					return true
+				}
+				inner, ok := body.(*ast.CallExpr)
+				if !ok || len(inner.Args) != 1 {
+					return true
+				}
+				sel, ok := inner.Fun.(*ast.SelectorExpr)
+				if !ok {
+					return true
+				}
+				subst := func(e ast.Expr) string {
+					if u, ok := e.(*ast.StarExpr); ok {
+						e = u.X
+					}
+					if id, ok := e.(*ast.Ident); ok {
+						if a, ok := params[id.Name]; ok {
+							return resolve(env, alias, a)
+						}
+					}
+					return strings.TrimPrefix(Nospace(e), "*")
+				}
+				switch sel.Sel.Name {
+				case "GT", "GTE", "LT", "LTE", "Equal", "IsNil":
+					found = true
+					c.method = sel.Sel.Name
+					c.operand = subst(sel.X)
+					c.bound = subst(inner.Args[0])
+				}
+				return true
+			})
+		}
 		if !found {
 			continue
 		}
@@ -1237,6 +1310,51 @@ func flattenGuards(files []File, fn *ast.FuncDecl, depth int, out *[]flatItem) {
 	}
 }
 
+// isForeignSignerPred: e is (or is a local bound exactly once to) `func(a T) bool { return !a.Equals(contractAddr) }`,
+// where contractAddr is the address parameter of fn.
+func isForeignSignerPred(fn *ast.FuncDecl, e ast.Expr) bool {
+	lit, _ := e.(*ast.FuncLit)
+	if id, ok := e.(*ast.Ident); ok {
+		n := 0
+		ast.Inspect(fn.Body, func(x ast.Node) bool {
+			if as, ok := x.(*ast.AssignStmt); ok && len(as.Lhs) == len(as.Rhs) {
+				for i, l := range as.Lhs {
+					if li, ok := l.(*ast.Ident); ok && li.Name == id.Name {
+						n++
+						lit, _ = as.Rhs[i].(*ast.FuncLit)
+					}
+				}
+			}
+			return true
+		})
+		if n != 1 {
+			return false
+		}
+	}
+	if lit == nil || lit.Type.Params == nil || len(lit.Type.Params.List) != 1 || len(lit.Type.Params.List[0].Names) != 1 || len(lit.Body.List) != 1 {
+		return false
+	}
+	p := lit.Type.Params.List[0].Names[0].Name
+	r, ok := lit.Body.List[0].(*ast.ReturnStmt)
+	if !ok || len(r.Results) != 1 {
+		return false
+	}
+	u, ok := r.Results[0].(*ast.UnaryExpr)
+	if !ok || u.Op != token.NOT {
+		return false
+	}
+	c, ok := u.X.(*ast.CallExpr)
+	if !ok || len(c.Args) != 1 {
+		return false
+	}
+	sel, ok := c.Fun.(*ast.SelectorExpr)
+	if !ok || sel.Sel.Name != "Equals" {
+		return false
+	}
+	x, a := Nospace(sel.X), canonText(fn, c.Args[0])
+	return (x == p && a == "contractAddr") || (canonText(fn, sel.X) == "contractAddr" && Nospace(c.Args[0]) == p)
+}
+
 // ---------------------------------------------------------------- main entry
 
 // Emit prints every definition (the caller has printed the header).
@@ -1284,23 +1402,82 @@ func Emit(repo string) {
 					return true
 				}
 				clauses, rest, hasDefault := dispatchClauses(loopBody.List)
-				staking := false
-				for _, c := range clauses {
-					for _, t := range c.types {
-						if t == "stakingtypes.MsgCreateValidator" {
-							staking = true
+				hasStaking := func(cs []dispatchClause) bool {
+					for _, c := range cs {
+						for _, t := range c.types {
+							if t == "stakingtypes.MsgCreateValidator" {
+								return true
+							}
 						}
+					}
+					return false
+				}
+				staking := hasStaking(clauses)
+				// the dispatch may live in a per-message function of the same package called from the loop body:
+				// `if err := check(msg); err != nil { return err }` (the loop goes on after a nil result, whatever
+				// the clause returned it) or `return check(msg)` (the loop ends after the first message)
+				bodyFn := f
+				perMsg, perMsgGoesOn := false, false
+				if !staking {
+					for i, st := range loopBody.List {
+						var call *ast.CallExpr
+						guard := false
+						switch x := st.(type) {
+						case *ast.IfStmt:
+							if as, ok := x.Init.(*ast.AssignStmt); ok && len(as.Rhs) == 1 && x.Else == nil && strings.HasSuffix(Nospace(x.Cond), "!=nil") && returnsError(x.Body) {
+								call, _ = as.Rhs[0].(*ast.CallExpr)
+								guard = true
+							}
+						case *ast.AssignStmt:
+							if len(x.Rhs) == 1 && len(x.Lhs) == 1 && i+1 < len(loopBody.List) {
+								if nx, ok := loopBody.List[i+1].(*ast.IfStmt); ok && nx.Init == nil && Nospace(nx.Cond) == Nospace(x.Lhs[0])+"!=nil" && returnsError(nx.Body) {
+									call, _ = x.Rhs[0].(*ast.CallExpr)
+									guard = true
+								}
+							}
+						case *ast.ReturnStmt:
+							if len(x.Results) == 1 {
+								call, _ = x.Results[0].(*ast.CallExpr)
+							}
+						}
+						if call == nil {
+							continue
+						}
+						id, ok := call.Fun.(*ast.Ident)
+						if !ok {
+							continue
+						}
+						callee := findFunc(anteFiles, id.Name, "")
+						if callee == nil || callee.Body == nil {
+							continue
+						}
+						cs, _, hd := dispatchClauses(callee.Body.List)
+						if !hasStaking(cs) {
+							continue
+						}
+						clauses, hasDefault, staking = cs, hd, true
+						bodyFn, perMsg, perMsgGoesOn = callee, true, guard
+						rest = loopBody.List[i+1:]
+						if guard {
+							if _, isAssign := st.(*ast.AssignStmt); isAssign {
+								rest = loopBody.List[i+2:] // the error test that belongs to the call
+							}
+						}
+						break
 					}
 				}
 				if !staking {
 					return true
 				}
 				if !hasDefault {
-					afterOther = true // other messages fall out of the dispatch
+					afterOther = !perMsg || perMsgGoesOn // other messages fall out of the dispatch
 				}
 				for _, c := range clauses {
-					env := cmpEnv{fnLocals: singleDefLocals(f), switchVar: c.v}
+					env := cmpEnv{fnLocals: singleDefLocals(bodyFn), switchVar: c.v, files: anteFiles}
 					goesOn := !hasTopLevelReturn(c.body)
+					if perMsg {
+						goesOn = perMsgGoesOn // a return inside the clause ends the per-message function, not the loop
+					}
 					if c.types == nil {
 						afterOther = goesOn
 					}
@@ -1317,7 +1494,7 @@ func Emit(repo string) {
 						}
 					}
 				}
-				afterSwitch = !hasTopLevelReturn(rest)
+				afterSwitch = !hasTopLevelReturn(rest) && (!perMsg || perMsgGoesOn)
 				return true
 			})
 		}
@@ -1347,7 +1524,28 @@ func Emit(repo string) {
 	// sdk.Address/sdk.AccAddress → contractAddr), so moving code to other files, splitting it into helpers and
 	// renaming receivers/parameters do not change what is read
 	var vb, signer, refusesEth, commission, routes bool
-	if wh := findMethodAnyRecv(wasmFiles, "handleSdkMessage"); wh != nil {
+	// the handler is found by its ROLE — the same-package method that DispatchMsg (the wasmd Messenger interface
+	// method) calls for every encoded message inside its loop — not by its name
+	wh := findMethodAnyRecv(wasmFiles, "handleSdkMessage")
+	if dm := findMethodAnyRecv(wasmFiles, "DispatchMsg"); dm != nil {
+		ast.Inspect(dm.Body, func(n ast.Node) bool {
+			rs, ok := n.(*ast.RangeStmt)
+			if !ok {
+				return true
+			}
+			done := false
+			ast.Inspect(rs.Body, func(m ast.Node) bool {
+				if c, ok := m.(*ast.CallExpr); ok && !done {
+					if callee := samePkgCallee(wasmFiles, dm, c); callee != nil {
+						wh, done = callee, true
+					}
+				}
+				return !done
+			})
+			return !done
+		})
+	}
+	if wh != nil {
 		var items []flatItem
 		flattenGuards(wasmFiles, wh, 0, &items)
 		isEthType := func(e ast.Expr) bool { return strings.TrimPrefix(Nospace(e), "*") == "evm.MsgEthereumTx" }
@@ -1382,6 +1580,11 @@ func Emit(repo string) {
 					if ta, ok := as.Rhs[0].(*ast.TypeAssertExpr); ok && ta.Type != nil && isEthType(ta.Type) && canonText(it.fn, ta.X) == "msg" && returnsError(x.Body) {
 						refusesEth = true
 					}
+				}
+				// `if slices.ContainsFunc(msg.GetSigners(), p) { return err }` with p = func(a) bool { return !a.Equals(contractAddr) }
+				if c, ok := x.Cond.(*ast.CallExpr); ok && x.Init == nil && lastIdent(c.Fun) == "ContainsFunc" && len(c.Args) == 2 &&
+					canonText(it.fn, c.Args[0]) == "msg.GetSigners()" && returnsError(x.Body) && isForeignSignerPred(it.fn, c.Args[1]) {
+					signer = true
 				}
 			case *ast.TypeSwitchStmt:
 				for _, c := range x.Body.List {
